@@ -20,6 +20,8 @@ THIS_ROUTES = [
     'h := a.f\na = {"name": "A3"}\nprint(h())',
     '[h] := [b.f]\nprint(h())', '{f} := a\nprint(f())', 'for [k, fx] in [a.f, b.g] {\n    print(fx())\n}',
     'xs := [a.f]\nys := xs + []\nprint(ys[0]())', 'print((a.f)())', 'a.f2 = b.f\nprint(a.f2())',
+    'xs := [a.f]\nxs[0] = b.f\nprint(xs[0]())', 'xs := [a.f]\nxs[0] = who\nprint(xs[0]())', 'c := {"name": "C", "k": a.f}\nc.k = b.f\nh := c.k\nprint(h())', 'xs := [a.f, b.f]\nxs[0:1] = [b.f]\nprint(xs[0]())',
+    'xs := [who]\nxs[0] = a.f\nprint(xs[0]())', 'c := {"name": "C", "lst": [a.f]}\nc.lst[0] = who\nprint(c.lst[0]())',
     'h := null\nh = a.f\nprint(h())', 'h := who\nif true {\n    h = b.g\n}\nprint(h())', 'f1 := null\nf2 := null\n[f1, f2] = [b.f, a.f]\nprint(f1())\nprint(f2())', 'h := null\nfor [i, o2] in [a, b] {\n    h = o2.f\n}\nprint(h())',
     'h := a.f\nh = who\nprint(h())', 'q := {"name": "Q", "m": fn () {\n    h := null\n    h = a.f\n    return h()\n}}\nprint(q.m())',
     'o := {"name": "O", "set": fn (v) {\n    this.name = v\n    return this\n}}\nprint(o.set("N") === o)\nprint(o.name)',
@@ -52,6 +54,7 @@ def templates(tier, seed=0):
         calls2 = ['print(f(xs..))', 'print(f(xs.., ys..))', 'print(f(1, xs..))', 'print(f(xs.., 2))', 'print(f(none.., none..))', 'print(f(none.., 1, none..))']
         src = ['n := @h0@', 'm := @h1@', 'none := []', 'ys := [7]', 'xs := []'] + ladder('n', ['xs = ' + l for l in flat]) + ['fn f(%s) {' % params] + body + ['    return 1', '}'] + ladder('m', calls2) + ['print(9)']
         ts.append({'name': 'arity-spread-%s' % nm, 'src': '\n'.join(src) + '\n', 'assume': lambda v: [v['h0'] >= 0, v['h0'] < 5, v['h1'] >= 0, v['h1'] < 6]})
+    ts.append({'name': 'self-call-in-args', 'src': 'fn add(x, y) {\n    return x + y\n}\nprint(add(add(@h10@, 2), 3))\nprint(add(1, add(2, add(3, 4))))\no := {"n": 0, "bump": fn (k) {\n    this.n += k\n    return this.n\n}}\nprint(o.bump(o.bump(1)))\nfn idf(v) {\n    return v\n}\nprint(idf(idf)(5))\nfn twice(g, v) {\n    return g(g(v))\n}\nprint(twice(idf, twice(idf, 6)))\nfn t(x) {\n    print(x)\n    return x\n}\nfn pick() {\n    print("callee")\n    return add\n}\n'})
     ts.append({'name': 'param-fresh', 'src': 'x := @h10@\nys := [@h11@]\nfn f(x, ys) {\n    x = x + 1\n    ys[0] = x\n    ys = [0]\n    return x\n}\nprint(f(x, ys))\nprint(x)\nprint(ys)\nfn rec(n, acc) {\n    if n == 0 {\n        return acc\n    }\n    acc2 := acc + [n]\n    return rec(n - 1, acc2)\n}\nprint(rec(3, []))\n'})
     ts.append({'name': 'runs-off-end', 'src': 'fn f(c) {\n    if c {\n        return 5\n    }\n}\nprint(f(@b0@))\ng := fn () {\n    x := 1\n}\nprint(g())\n'})
     # a function never reached through an object has no `this` of its own, unless an enclosing function's `this` is in scope
